@@ -5,6 +5,7 @@
 import LdkModel.Proofs.Bech32
 import LdkModel.Proofs.Merkle
 import LdkModel.Proofs.Bolt11
+import LdkModel.Proofs.Bits
 import LdkModel.Proofs.OfferMeta
 namespace Ldk.C18
 open Ldk.Prim.Bech32
@@ -119,6 +120,86 @@ theorem bolt11_data_roundtrip (ts : Nat) (fs : List (U5 × List U5)) (hts : ts <
   simp only [hlen, ↓reduceIte, List.drop_left' h7, List.take_left' h7]
   rw [splitTagged_encodeFields fs _ hw (by simp)]
   simp [parseIntBe_encodeTimestamp]
+
+/-- 8 → 5 → 8 bit regrouping is the identity: a byte payload (payment hash, description, public key,
+    route hint, …) written as symbols with the zero padding rule reads back as the same bytes. -/
+theorem fes_bytes_roundtrip (b : List UInt8) : fesToBytes (bytesToFes b) = b :=
+  fesToBytes_bytesToFes b
+
+example : fesToBytes (bytesToFes [0xff, 0x01, 0x7a]) = [0xff, 0x01, 0x7a] := fes_bytes_roundtrip _
+
+/-- What the signature covers: the signed preimage is `hrp ‖ bytes(data without signature)`, and for
+    a fixed HRP length and a fixed number of data symbols it determines the HRP and EVERY data symbol
+    (timestamp, every tag, length and payload symbol) — so a substituted symbol or HRP character with
+    a recomputed checksum changes the signed hash unless SHA-256 collides, which leaves exactly the
+    three outcomes of the property (parse/semantic error, another recovered key, or — when the parsed
+    content re-serialises to the same symbols — identical signed content).  The converse direction
+    (same HRP and data ⇒ same preimage) is `rfl`.  Both length hypotheses are needed, see below. -/
+theorem bolt11_sig_covers (h h' : Bytes) (d d' : List U5) (hl : h.length = h'.length)
+    (dl : d.length = d'.length) (hv : ∀ x ∈ d, x < 32) (hv' : ∀ x ∈ d', x < 32) :
+    signedPreimage h d = signedPreimage h' d' ↔ h = h' ∧ d = d' := by
+  constructor
+  · intro he
+    unfold signedPreimage at he
+    rw [← dl] at he
+    obtain ⟨e1, e2⟩ := List.append_inj he hl
+    refine ⟨e1, ?_⟩
+    -- the padded symbol lists have equal byte images, hence equal bits up to the byte boundary
+    have key : ∀ (z : List U5), z.length = (if d.length * 5 % 8 = 0 then 0 else if d.length * 5 % 8 < 3 then 2 else 1) →
+        (∀ e : List U5, e.length = d.length →
+          ((fesToBytes (e ++ z)).flatMap (fun x => bitsOf 8 x.toNat)).take (5 * d.length)
+            = e.flatMap (fun x => bitsOf 5 x.toNat)) := by
+      intro z hz e hel
+      rw [bits_of_fesToBytes, List.flatMap_append, List.take_take]
+      have l1 := flatMap_bits_length 5 e
+      have l2 := flatMap_bits_length 5 z
+      have hle : 5 * d.length ≤ (List.flatMap (fun x => bitsOf 5 x.toNat) e ++ List.flatMap (fun x => bitsOf 5 x.toNat) z).length / 8 * 8 := by
+        rw [List.length_append, l1, l2, hz, hel]
+        have hdm := Nat.div_add_mod (d.length * 5) 8
+        by_cases c0 : d.length * 5 % 8 = 0
+        · simp only [c0, ↓reduceIte]; omega
+        · by_cases c3 : d.length * 5 % 8 < 3
+          · simp only [c0, c3, ↓reduceIte]
+            have : d.length * 5 / 8 + 1 ≤ (5 * d.length + 5 * 2) / 8 :=
+              (Nat.le_div_iff_mul_le (by decide)).mpr (by omega)
+            have := Nat.mul_le_mul_right 8 this
+            omega
+          · simp only [c0, c3, ↓reduceIte]
+            have : d.length * 5 / 8 + 1 ≤ (5 * d.length + 5 * 1) / 8 :=
+              (Nat.le_div_iff_mul_le (by decide)).mpr (by omega)
+            have := Nat.mul_le_mul_right 8 this
+            omega
+      have := Nat.min_eq_left hle
+      rw [this, List.take_left' (by rw [l1, hel])]
+    have pad : ∀ e : List U5, e.length = d.length →
+        (if e.length * 5 % 8 = 0 then e else if e.length * 5 % 8 < 3 then e ++ [0, 0] else e ++ [0])
+          = e ++ (if d.length * 5 % 8 = 0 then [] else if d.length * 5 % 8 < 3 then [0, 0] else [0]) := by
+      intro e hel
+      rw [hel]
+      split
+      · simp
+      · split <;> rfl
+    have pd := pad d rfl
+    have pd' := pad d' dl.symm
+    rw [← dl] at pd'
+    rw [pd, pd'] at e2
+    have hz : (if d.length * 5 % 8 = 0 then ([] : List U5) else if d.length * 5 % 8 < 3 then [0, 0] else [0]).length
+        = (if d.length * 5 % 8 = 0 then 0 else if d.length * 5 % 8 < 3 then 2 else 1) := by
+      split
+      · rfl
+      · split <;> rfl
+    have k1 := key _ hz d rfl
+    have k2 := key _ hz d' dl.symm
+    rw [e2] at k1
+    exact flatMap_bits5_inj d d' hv hv' dl (k1.symm.trans k2)
+  · rintro ⟨rfl, rfl⟩; rfl
+
+/-- Across lengths the preimage is NOT injective (a property of the BOLT-11 format, not of LDK): the
+    HRP is concatenated with the data bytes without a separator, so `lnbc1` + data and `lnbc` + data'
+    with data' = 0x31-prefixed data collide; and a trailing all-zero symbol can vanish in the padding.
+    Both mutants change the number of symbols, which the tagged-field framing then has to reject. -/
+example : signedPreimage [108, 110, 98, 99] [6, 4] = signedPreimage [108, 110, 98, 99, 49] [0] := by decide
+example : signedPreimage [] [1, 2] = signedPreimage [] [1, 2, 0] := by decide
 
 /-- The parser the driver runs (`parseTagged`, which interprets each field before looking at the
     next, like de.rs) agrees with framing-then-interpretation whenever it succeeds. -/
